@@ -40,6 +40,12 @@ PowZ(b, e) == IF e >= 0 THEN PowMod(b % P, e) ELSE PowMod(Inv(b), -e)
 Pref(num, den, s2, s3) ==
   FMul(FMul(Norm(num), Inv(Norm(den))), FMul(PowZ(Sqrt2, s2), PowZ(Sqrt3, s3)))
 
+Fact(n) == CASE n = 0 -> 1 [] n = 1 -> 1 [] n = 2 -> 2 [] n = 3 -> 6 [] n = 4 -> 24 [] OTHER -> 120
+(* image of sqrt(n) for the integers that occur as n_o! n_v! *)
+SqrtImage(n) == CASE n = 1 -> 1 [] n = 2 -> Sqrt2 [] n = 4 -> 2 [] n = 6 -> FMul(Sqrt2, Sqrt3)
+                  [] n = 12 -> FMul(2, Sqrt3) [] n = 36 -> 6 [] n = 24 -> FMul(2, FMul(Sqrt2, Sqrt3))
+                  [] n = 144 -> 12 [] n = 3 -> Sqrt3 [] n = 8 -> FMul(2, Sqrt2)
+
 (***************************************************************************)
 (* A small non-linear mixing function used to generate tensor values.      *)
 (***************************************************************************)
